@@ -191,7 +191,7 @@ def choose(ctx, rnd):
         chosen.append(best)
         covered |= feats[best["id"]]
         order.remove(best)
-    target = len(chosen) if ctx.quick else 60
+    target = max(len(chosen), 9) if ctx.quick else max(len(chosen), 60)
     pairs_cov = set().union(*[factor_pairs(s) for s in chosen]) if chosen else set()
     while len(chosen) < target and order:             # pairwise cover of the raw scenario attributes
         cand = order[:400]
